@@ -3,7 +3,7 @@
    Cif/LexProofs.v (written values are read back as they were). Model: Cif/Quote.v, Write.v, Buf.v, Lex.v
    (mirrors cifdoc.hpp / to_cif.hpp / the value-level rules of cif.hpp after the three repairs);
    Cif/Legacy.v keeps the snapshot's behaviour for the *_refuted_before_fix statements. *)
-From GV Require Cif.JsonNum Cif.JsonNumProofs Num.DecParse.
+From GV Require Cif.JsonNum Cif.JsonNumProofs Cif.JsonNumCif Num.DecParse.
 From GV Require Import Cif.Quote Cif.Write Cif.Buf Cif.Lex Cif.Legacy Cif.QuoteProofs Cif.BufProofs
   Cif.LexProofs Cif.LayoutProofs Cif.Sequence Cif.Tokens Cif.DocTokens Cif.DocParse.
 Local Open Scope Z_scope.
@@ -188,3 +188,11 @@ Example C01_json_number_example :
   DecParse.is_cif_numb [45; 48; 48; 55; 46; 40; 49; 50; 41] = true /\
   JsonNum.write_as_number [45; 48; 48; 55; 46; 40; 49; 50; 41] = [45; 55; 46; 48].
 Proof. vm_compute. repeat split; reflexivity. Qed.
+
+(* and the production is exactly what the CIF number recogniser of property C12 accepts (Num/DecParse.v, is_cif_numb: the
+   acceptance set of cif::as_number up to the range of double, which is the test write_value makes before it calls
+   write_as_number): EVERY CIF number is written as a JSON number *)
+Theorem C01_every_cif_number_is_a_json_number : forall s,
+  DecParse.is_cif_numb s = true -> JsonNum.json_number (JsonNum.write_as_number s) = true.
+Proof. exact JsonNumCif.cif_number_written_as_json. Qed.
+Print Assumptions C01_every_cif_number_is_a_json_number.
